@@ -59,6 +59,10 @@ class Recorder:
             f.flush()
         return self._do("dump", f.name == self.cfg, w)
 
+    def replace(self, src, dst):
+        # atomic publication of a complete file
+        return self._do("publish", dst == self.cfg, lambda: os.replace(src, dst))
+
 
 class OsProxy:
     def __init__(self, rec):
@@ -68,6 +72,9 @@ class OsProxy:
 
     def exists(self, p):
         return self._rec.exists(p)
+
+    def replace(self, src, dst):
+        return self._rec.replace(src, dst)
 
     def __getattr__(self, n):
         return getattr(os.path if n in ("join", "getmtime", "abspath", "isabs", "dirname", "basename", "normpath") else os, n)
@@ -113,6 +120,7 @@ class TLRecorder:
     def open(self, p, mode="r"): return _tls.rec.open(p, mode)
     def load(self, f): return _tls.rec.load(f)
     def dump(self, obj, f): return _tls.rec.dump(obj, f)
+    def replace(self, src, dst): return _tls.rec.replace(src, dst)
 
 
 def call_with(rec, fn, home):
@@ -147,7 +155,7 @@ def remove_proxies(saved):
             mod.open = op
 
 
-def record_trace(config_exists):
+def record_trace(config_exists, dir_only=False):
     """run once, alone, and record the operation sequence on db_config.json"""
     home = tempfile.mkdtemp(prefix="verif_c20_")
     old_home = os.environ.get("HOME")
@@ -158,6 +166,8 @@ def record_trace(config_exists):
         if config_exists:
             os.makedirs(os.path.dirname(cfg))
             json.dump({}, open(cfg, "w"))
+        elif dir_only:
+            os.makedirs(os.path.dirname(cfg))       # another run has just created the directory, nothing else yet
         open(os.path.join(home, "a.gtf"), "w").close()
         rec = Recorder(cfg)
         errors = []
@@ -198,12 +208,16 @@ def find_bad_schedule(traces, exists0, timeout_ms=60000):
                 here = z3.And(active, pc[p][t] == k)
                 if kind == "exists" and traces[p][k + 1:k + 3] == ["wopen", "dump"]:
                     step = z3.If(z3.And(pc[p][t] == k, state[t] != 0), k + 3, step)
+                if kind == "exists" and traces[p][k + 1:k + 2] == ["publish"]:
+                    step = z3.If(z3.And(pc[p][t] == k, state[t] != 0), k + 2, step)
                 if kind == "wopen":
                     nxt_state = z3.If(here, 1, nxt_state)
-                elif kind == "dump":
+                elif kind in ("dump", "publish"):
                     nxt_state = z3.If(here, 2, nxt_state)
                 if kind == "load":
                     bad.append(z3.And(here, state[t] != 2))
+                if kind == "ropen":
+                    bad.append(z3.And(here, state[t] == 0))
             s.add(pc[p][t + 1] == z3.If(active, step, pc[p][t]))
         s.add(state[t + 1] == nxt_state)
     s.add(z3.Or(*bad))
@@ -293,11 +307,21 @@ def lane(n, config_exists, same_gtf):
         if not config_exists:
             trace0, errs0 = record_trace(False)
             errs = errs + errs0
-            assert trace0[0] == "exists" and trace0[3:] == trace[1:], (trace0, trace)
+            assert trace0[0] == "exists" and trace0[-len(trace) + 1:] == trace[1:], (trace0, trace)
             trace = trace0
         st = {"paths": 1, "paths_reached_assertion": 1, "paths_infeasible": 0, "queries": 1, "obligations": 1, "discharged": 0, "inconclusive": [],
               "n_inconclusive": 0, "labels": {"no load observes a truncated cache file": 1}, "excluded": {}, "known_hits": {},
               "samples": [{"label": "recorded trace of one run", "witness": {"trace": trace, "solo_errors": errs}}]}
+        if not errs and not config_exists:
+            # a run that starts right after another run created the cache directory (but none of its files yet)
+            _, errs_dir = record_trace(False, dir_only=True)
+            st["obligations"] += 1
+            st["labels"]["a run starting next to a half-initialised cache directory succeeds"] = 1
+            if errs_dir:
+                st["cex"] = {"label": "a run that finds the cache directory but not yet its files fails",
+                             "model": {"dir_only": True}, "detail": {"errors": errs_dir}}
+                return st
+            st["discharged"] += 1
         if errs:
             st["error"] = "a single run fails on its own: %s" % errs
             return st
@@ -306,7 +330,16 @@ def lane(n, config_exists, same_gtf):
         st["states"] = 3
         st["schedule_length"] = n * len(trace)
         if verdict == "unsat":
-            st["discharged"] = 1
+            st["discharged"] += 1
+            # model validation: the non-overlapping and a round-robin schedule are replayed with real threads and files
+            for sched in ([p for p in range(n) for _ in range(len(trace))], [p for _ in range(len(trace)) for p in range(n)]):
+                st["obligations"] += 1
+                errs2 = replay_schedule(sched, n, config_exists, same_gtf)
+                if errs2:
+                    st["cex"] = {"label": "a run fails under a schedule the model calls safe",
+                                 "model": {"schedule": sched, "n": n, "config_exists": config_exists, "same_gtf": same_gtf, "trace": trace}, "detail": {"errors": errs2}}
+                    break
+                st["discharged"] += 1
         elif verdict == "sat":
             known = "C20-config-json-rewritten-in-place"
             if known in ctx["active"]:
@@ -335,6 +368,9 @@ def lane(n, config_exists, same_gtf):
 
 def replay_custom(inst, case):
     m = case["model"]
+    if m.get("dir_only"):
+        _, errs = record_trace(False, dir_only=True)
+        return (len(errs) > 0), ("run failures: %s" % errs if errs else "the run finished")
     errs = replay_schedule(m["schedule"], m["n"], m["config_exists"], m["same_gtf"])
     bad = [e for e in errs if "JSONDecodeError" in e or "Error" in e]
     return (len(bad) > 0), ("run failures under the schedule: %s" % bad if bad else "all runs finished")
@@ -348,4 +384,9 @@ def instances(tier, seed):
             out.append(Instance("interleavings[runs=%d,config %s]" % (n, "present" if cfg else "absent"), run=lane(n, cfg, False), kind="z3-bmc",
                                 funcs=["isoquant:set_configs_directory", "src.gtf2db:convert_db", "src.gtf2db:find_converted_db"],
                                 bounds="%d simultaneously starting runs, all interleavings of their recorded shared-file operations" % n, weight=10 * n))
+    # "never makes a run use a conversion that does not correspond to its own input": the look-up decision (shared with C12)
+    from props import c12
+    out.append(Instance("cache_lookup", c12.h_cache, ["src.gtf2db:find_converted_db", "src.gtf2db:compare_stored_gtf"],
+                        "symbolic existence bits, current and recorded modification times, flags", weight=20))
+    out.append(Instance("cache_update", c12.h_convert, ["src.gtf2db:convert_db"], "conversion -> reuse -> touched input -> other flag", weight=20))
     return out
